@@ -245,6 +245,15 @@ pub trait RvbUpdater:
                 rng.gen_bool(p_to_flip)
             };
 
+            #[cfg(qmc_verif)]
+            verif_hooks::push_trace(verif_hooks::RvbTrace {
+                subvars: subvars.clone(),
+                cluster_starting_state: cluster_starting_state.clone(),
+                cluster_toggle_ps: cluster_toggle_ps.clone(),
+                p_to_flip,
+                accepted: should_mutate,
+            });
+
             if should_mutate {
                 // Great, mutate the graph.
                 mutate_graph(
@@ -1216,6 +1225,70 @@ fn calculate_mult(
             valid
         });
         new_mult
+    }
+}
+
+/// Verification hooks: direct access to the private pure helpers and a per-update trace.
+#[cfg(qmc_verif)]
+pub mod verif_hooks {
+    use super::*;
+    use std::cell::RefCell;
+
+    /// What one proposed RVB update looked like.
+    #[derive(Debug, Clone)]
+    pub struct RvbTrace {
+        /// Variables in the cluster or on its boundary (sorted).
+        pub subvars: Vec<usize>,
+        /// Per subvar: is it inside the cluster at p = 0.
+        pub cluster_starting_state: Vec<bool>,
+        /// Sorted positions at which cluster membership toggles.
+        pub cluster_toggle_ps: Vec<usize>,
+        /// Acceptance probability computed by `calculate_flip_prob`.
+        pub p_to_flip: f64,
+        /// Whether the update was applied.
+        pub accepted: bool,
+    }
+
+    thread_local! {
+        static TRACE: RefCell<Vec<RvbTrace>> = RefCell::new(Vec::new());
+    }
+
+    pub(crate) fn push_trace(t: RvbTrace) {
+        TRACE.with(|l| l.borrow_mut().push(t));
+    }
+
+    /// Take (and clear) the RVB trace of the current thread.
+    pub fn take_trace() -> Vec<RvbTrace> {
+        TRACE.with(|l| std::mem::take(&mut *l.borrow_mut()))
+    }
+
+    /// `calculate_mult` on two bond containers built from (bond, weight) lists.
+    pub fn verif_calculate_mult(before: &[(usize, f64)], after: &[(usize, f64)], n: usize) -> f64 {
+        let mut b = BondContainer::<usize>::default();
+        before.iter().for_each(|(k, w)| {
+            b.insert(*k, *w);
+        });
+        let mut a = BondContainer::<usize>::default();
+        after.iter().for_each(|(k, w)| {
+            a.insert(*k, *w);
+        });
+        calculate_mult(&b, &a, n)
+    }
+
+    /// `find_overlapping_starts` collected into a vector.
+    pub fn verif_find_overlapping_starts(
+        p_start: usize,
+        p_end: usize,
+        cutoff: usize,
+        flip_positions: &[usize],
+    ) -> Vec<usize> {
+        find_overlapping_starts(p_start, p_end, cutoff, flip_positions).collect()
+    }
+
+    /// `remove_doubles` on a sorted vector.
+    pub fn verif_remove_doubles(mut v: Vec<usize>) -> Vec<usize> {
+        remove_doubles(&mut v);
+        v
     }
 }
 
